@@ -3,3 +3,10 @@ import GoDebian.Base.Bytes
 import GoDebian.Base.Str
 import GoDebian.Model.Version
 import GoDebian.Drv.Version
+import GoDebian.Spec.Version
+import GoDebian.Lemmas.VersionOrd
+import GoDebian.Lemmas.VersionSpec
+import GoDebian.Lemmas.VersionModel
+import GoDebian.Lemmas.VersionCompare
+import GoDebian.Props.C01
+import GoDebian.Props.C02
